@@ -1,5 +1,6 @@
 """C04 - model clock and day type equal the true calendar at every step."""
 import datetime
+import os
 
 import core
 import simdriver
@@ -108,6 +109,44 @@ def step_real(SimParam, M, D, dt, k, raw, oracle_bad, want_full=False):
                                    'expected': list(tf[:5])})
     st = state(sp)
     return 'ok digest=%d last=%s' % (h, fmt(st, model_daytype(st[2])))
+
+
+def sim_trace(M, D, nday, dt, epw, variant, lookups_bad):
+    """Driver-only run of the real simulate; returns ((protocol line, answer), steps observed) and appends
+    calendar-oracle failures (clock, day type, look-up indices, month used for the ground temperature)."""
+    try:
+        with core.quiet():
+            model = simdriver.build_model(M, D, nday, dt, epw=epw)
+    except Exception as e:  # noqa: BLE001 - a legal rural file must be accepted
+        if len(lookups_bad) < 5:
+            lookups_bad.append({'M': M, 'D': D, 'nday': nday, 'dt': dt, 'it': 0, 'epw_variant': variant,
+                                'observed': 'generate raised %s: %s' % (type(e).__name__, str(e)[:120]),
+                                'expected_now': 'a model', 'expected_month_before_update': None})
+        return ('trace M=%d D=%d dt=%d k=%d dtype=1' % (M, D, dt, nday * 86400 // dt), classify_exc(e)), 0
+    res = simdriver.driver_only_run(model, check_forc=False)
+    if res.error:
+        return ('trace M=%d D=%d dt=%d k=%d dtype=1' % (M, D, dt, nday * 86400 // dt),
+                'err %s' % res.error), 0
+    h = 0
+    t0 = doy0(M, D) * 86400
+    for s in res.steps:
+        (it, row, sec, hour, mon, day, jul, dtyp, n, tsm, trd, trh, scd, sch) = s
+        h = (h * 1000003 + pack((mon, day, jul, sec, hour), dtyp)) % HASH_P
+        t = t0 + it * dt
+        if t < YEAR:
+            tf = true_fields(t)
+            before = true_fields(t - dt)
+            ok = ((mon, day, jul, sec, hour, dtyp) == tf and (trd, trh) == (tf[5] - 1, tf[4])
+                  and (scd, sch) == (tf[5] - 1, tf[4]) and tsm == before[0])
+            if not ok and len(lookups_bad) < 5 and not any(
+                    (b['epw_variant'], b['M'], b['D'], b['nday'], b['dt']) == (variant, M, D, nday, dt)
+                    for b in lookups_bad):                    # one witness (the first step) per run
+                lookups_bad.append({'M': M, 'D': D, 'nday': nday, 'dt': dt, 'it': it, 'epw_variant': variant,
+                                    'observed': list(s), 'expected_now': list(tf),
+                                    'expected_month_before_update': before[0]})
+    last = res.steps[-1]
+    return ('trace M=%d D=%d dt=%d k=%d dtype=1' % (M, D, dt, len(res.steps)),
+            'ok digest=%d last=%s' % (h, fmt(last[4:7] + last[2:4], last[7]))), len(res.steps)
 
 
 def run(chk):
@@ -221,37 +260,59 @@ def run(chk):
     lookups_bad = []
     n_steps = 0
     for (M, D, nday, dt) in runs:
-        model = simdriver.build_model(M, D, nday, dt)
-        res = simdriver.driver_only_run(model, check_forc=False)
-        if res.error:
-            cases.append(('trace M=%d D=%d dt=%d k=%d dtype=1' % (M, D, dt, nday * 86400 // dt),
-                          'err %s' % res.error))
-            continue
-        h = 0
-        t0 = doy0(M, D) * 86400
-        for s in res.steps:
-            (it, row, sec, hour, mon, day, jul, dtyp, n, tsm, trd, trh, scd, sch) = s
-            h = (h * 1000003 + pack((mon, day, jul, sec, hour), dtyp)) % HASH_P
-            t = t0 + it * dt
-            if t < YEAR:
-                tf = true_fields(t)
-                before = true_fields(t - dt)
-                ok = ((mon, day, jul, sec, hour, dtyp) == tf and (trd, trh) == (tf[5] - 1, tf[4])
-                      and (scd, sch) == (tf[5] - 1, tf[4]) and tsm == before[0])
-                if not ok and len(lookups_bad) < 5:
-                    lookups_bad.append({'M': M, 'D': D, 'nday': nday, 'dt': dt, 'it': it,
-                                        'observed': list(s), 'expected_now': list(tf),
-                                        'expected_month_before_update': before[0]})
-        n_steps += len(res.steps)
-        last = res.steps[-1]
-        cases.append(('trace M=%d D=%d dt=%d k=%d dtype=1' % (M, D, dt, len(res.steps)),
-                      'ok digest=%d last=%s' % (h, fmt(last[4:7] + last[2:4], last[7]))))
+        case, k = sim_trace(M, D, nday, dt, None, None, lookups_bad)
+        cases.append(case)
+        n_steps += k
     chk.correspond('simulate(dayType,clock)~Clock+dayType', 'C04', cases,
                    rule='driver-only runs of the REAL UWG.simulate (physics stubbed from outside): '
                         '(month, day, julian, secDay, hourDay, dayType) observed at every step vs Lean '
                         'Clock.update + dayType; digest over every step; includes a whole year hourly '
                         'and a window ending on 31 December',
                    classify=lambda line, impl: 'dt=%s' % line.split('dt=')[1].split(' ')[0])
+
+    # ---- tie 4: the same on legal but never-varied rural files -----------------------------------
+    # The property fixes the calendar (non-leap, 1 January a Sunday) whatever the weather file says: the start
+    # week-day of DATA PERIODS, the leap-year flag, a daylight-saving period, listed holidays, filled soil-property
+    # cells, comments ... are not inputs of the clock; an 8784-row file is read by a 365-day clock all the same.
+    import s1_util as S
+    base_rows = S.load_epw(simdriver.epw_path())
+    work = chk.work()
+    files = [(name, S.write_variant(work, base_rows, name, 'c04_')) for name in sorted(S.HEADER_VARIANTS)]
+    for name in ('leap8784', 'leap8784+weekday-Thursday+dst-3/8-11/1', 'leap8784noflag'):
+        files.append((name, S.write_variant(work, base_rows, name, 'c04_')))
+    year_names = set(S.pick_variants(rng, 1 if not thorough else 8, must=('actual-year-header',)))
+    year_names.add('leap8784')
+    vcases, vbranches, nv_steps = [], {}, 0
+    for name, path in files:
+        vruns = []
+        if name in year_names or thorough:
+            vruns.append((1, 1, 365, 3600))
+        # one window crossing the end of February or starting after it, one anywhere
+        M, D = rng.choice([(2, 26), (2, 27), (2, 28), (3, 1)] + [d for d in dates() if d[0] >= 3])
+        room = min(6, 365 - doy0(M, D))
+        vruns.append((M, D, rng.randint(min(2, room), room), rng.choice(picks)))
+        for _ in range((1 if len(vcases) % 3 == 0 else 0) if not thorough else 4):
+            M, D = rng.choice(dates())
+            vruns.append((M, D, rng.randint(1, min(8, 365 - doy0(M, D))), rng.choice(picks)))
+        for (M, D, nday, dt) in vruns:
+            case, k = sim_trace(M, D, nday, dt, path, name, lookups_bad)
+            vcases.append(case)
+            nv_steps += k
+            grp = name.split('-')[0]
+            vbranches[grp] = vbranches.get(grp, 0) + 1
+    n_steps += nv_steps
+    chk.correspond('simulate(dayType,clock)~Clock+dayType on rural-file variants', 'C04', vcases,
+                   rule='driver-only runs of the REAL UWG.simulate on copies of the Singapore file in which cells '
+                        'the clock must not depend on are varied (%d files: DATA PERIODS start week-day Monday..'
+                        'Saturday; HOLIDAYS/DAYLIGHT SAVINGS leap flag Yes, DST period as m/d, wrapping the year '
+                        'end, day-of-year and textual, listed holidays; GROUND TEMPERATURES with the soil-property '
+                        'cells filled; comments, design conditions dropped, location text; an actual-year '
+                        'combination; 8784-row leap files with and without the flag): per file a window crossing '
+                        '28 Feb or starting after it and a random window (a whole year hourly for a few), random '
+                        'hour-dividing dt; trace vs the SAME Lean clock (the model has no file input)' % len(files),
+                   classify=lambda line, impl: 'dt=%s' % line.split('dt=')[1].split(' ')[0])
+    chk.extra_cov['c04_rural_file_variants'] = {'files': [f[0] for f in files], 'runs_per_group': vbranches,
+                                                'steps': nv_steps}
 
     # ---- the property's own oracle on the implementation ----------------------------------------
     for b in oracle_bad[:3]:
@@ -265,7 +326,7 @@ def run(chk):
                mismatches=len(oracle_bad))
     for b in lookups_bad[:3]:
         chk.violation('impl-violation', 'simulate: clock / day type / look-up indices vs true calendar',
-                      case={k: b[k] for k in ('M', 'D', 'nday', 'dt', 'it')}, observed=b['observed'],
+                      case={k: b.get(k) for k in ('M', 'D', 'nday', 'dt', 'it', 'epw_variant')}, observed=b['observed'],
                       expected={'now': b['expected_now'],
                                 'month_before_update': b['expected_month_before_update']},
                       how='driver-only run of UWG.simulate (harness/simdriver.py) with these parameters')
@@ -273,7 +334,9 @@ def run(chk):
                'at every step of the driver-only runs: clock fields and dayType equal datetime(2023) at '
                'start + it*dt; traffic schedule and building schedule are indexed with (true day type - 1, '
                'true hour); ground temperature with the true month at start + (it-1)*dt (looked up before '
-               'the clock advances)', mismatches=len(lookups_bad))
+               'the clock advances); evaluated on the shipped file AND on every rural-file variant of tie 4 '
+               '(epw_variant in the witness: header cells / 8784-row files the calendar must not depend on)',
+               mismatches=len(lookups_bad))
     chk.assumptions.append('secDay becomes the float 0. after the first midnight; integers < 2^53 are '
                            'exact in doubles, canonicalised with int() (checked integral)')
     chk.notes.append('year end (outside the property domain): the advance reaching 31 Dec 24:00 leaves '
@@ -290,7 +353,11 @@ def replay(chk, path):
         from uwg.simparam import SimParam
         step_real(SimParam, c['M'], c['D'], c['dt'], c['k'], False, bad)
     elif 'it' in c:
-        model = simdriver.build_model(c['M'], c['D'], c['nday'], c['dt'])
+        epw = None
+        if c.get('epw_variant'):
+            import s1_util as S
+            epw = S.write_variant(chk.work(), S.load_epw(simdriver.epw_path()), c['epw_variant'], 'rp_')
+        model = simdriver.build_model(c['M'], c['D'], c['nday'], c['dt'], epw=epw)
         res = simdriver.driver_only_run(model, check_forc=False)
         t0 = doy0(c['M'], c['D']) * 86400
         for s in res.steps:
